@@ -95,6 +95,9 @@ def parse_states(out):
     for m in _STATES_RE.finditer(out):
         pass
     if not m:
+        m2 = re.search(r"The number of states generated: (\d+)", out)
+        if m2:
+            return int(m2.group(1)), int(m2.group(1))
         return 0, 0
     return int(m.group(1)), int(m.group(2))
 
